@@ -946,6 +946,18 @@ func verifLenIsHeaderPlusLength(p *PathAttribute) bool {
 //@   requires l != nil
 //@   claims post
 //@   ensures result != nil && int(result.Length) == 8
+// SR capabilities / SR local block: flags and a reserved octet, then per range 3 octets of range size and a SID/Label
+// TLV of 4 + 4 octets
+//@ func NewLsTLVSrCapabilities
+//@   requires l != nil
+//@   claims inv-init inv-keep step
+//@   loop 0 invariant pre(length) == 2
+//@   loop 0 step int(length) == header(int(length)) + 11
+//@ func NewLsTLVSrLocalBlock
+//@   requires l != nil
+//@   claims inv-init inv-keep step
+//@   loop 0 invariant pre(length) == 2
+//@   loop 0 step int(length) == header(int(length)) + 11
 //@ func NewLsTLVOpaquePrefixAttr
 //@   requires l != nil && len(*l) <= 65535
 //@   claims post
